@@ -289,18 +289,28 @@ theorem scripted_conversions (k : Setter) (as : List Arg) :
     convArgs (as.take k.limit) 0 = Spec.convAll ((as.map toSpecArg).take (toSpec k).arity) 0 :=
   Lem.scripted_conversions k as
 
-/-- a throwing valueOf: same log, the exception propagates on both sides, and the date is left untouched -/
+/-- a throwing valueOf: same log, the exception propagates on both sides, and the object is what the re-entrant
+    setTime calls of earlier valueOfs left (the outer call has written nothing) -/
 theorem scripted_throw (k : Setter) (d : DateObj) (tv : Spec.TV) (as : List Arg) (l : List Nat)
     (h : Spec.convAll ((as.map toSpecArg).take (toSpec k).arity) 0 = (l, none)) :
-    setUTCS k d as = (d, .threw, l) ∧ Spec.setUTCS (toSpec k) tv (as.map toSpecArg) = (tv, .threw, l) :=
+    setUTCS k d as = (curAfter d (as.take k.limit), .threw, l) ∧
+    Spec.setUTCS (toSpec k) tv (as.map toSpecArg) = (Spec.curAfter tv ((as.map toSpecArg).take (toSpec k).arity), .threw, l) :=
   Lem.scripted_throw k d tv as l h
 
-/-- no exception: same log, and both sides continue with the unscripted call (`setUTC_step`) on the same numbers -/
+/-- the re-entrant setTime calls are the same on both sides -/
+theorem scripted_reentry (k : Setter) (as : List Arg) :
+    lastMut (as.take k.limit) = Spec.lastMut ((as.map toSpecArg).take (toSpec k).arity) := Lem.curM_curS k as
+
+/-- no exception: same log, and both sides continue with the unscripted call (`setUTC_step`) on the same numbers,
+    computed from the time value read at ENTRY — §15.9.5.27–.41 step 1 comes before the conversions, a valueOf that
+    re-enters setTime on the same Date does not change t — and stored over whatever the re-entrant calls wrote.
+    (Hypothesis `hst`: not the early return on an invalid date, Dev invalid_setter_not_stored.) -/
 theorem scripted_values (k : Setter) (d : DateObj) (tv : Spec.TV) (as : List Arg) (l : List Nat) (vs : List FV)
-    (h : Spec.convAll ((as.map toSpecArg).take (toSpec k).arity) 0 = (l, some vs)) :
+    (h : Spec.convAll ((as.map toSpecArg).take (toSpec k).arity) 0 = (l, some vs))
+    (hst : d.isNaN = false ∨ k = .time ∨ k = .year) :
     setUTCS k d as = ((setUTC k d vs).1, .ret (setUTC k d vs).2, l) ∧
     Spec.setUTCS (toSpec k) tv (as.map toSpecArg) = (Spec.setUTC (toSpec k) tv vs, .ret (Spec.setUTC (toSpec k) tv vs), l) :=
-  Lem.scripted_values k d tv as l vs h
+  Lem.scripted_values k d tv as l vs h hst
 
 /-- Date.UTC / constructor: the first seven arguments are all converted, in order -/
 theorem scripted_utc (as : List Arg) (l : List Nat) (r : Option (List FV))
@@ -384,5 +394,15 @@ example : dateParseFamily [50,48,48,48,45,48,49,45,48,49,84,50,52,58,48,48,58,48
     Spec.parseFields 2000 1 1 24 0 0 0 1 0 0 = some 946771200000 ∧
     dateParseFamily [50,48,48,48,45,48,49,45,48,49,84,48,48,58,48,48,43,48,48,58,54,48] = some none ∧
     Spec.parseFields 2000 1 1 0 0 0 0 1 0 60 = none := by decide +kernel
+
+/-- re-entrant valueOf: d = new Date(0); d.setUTCMinutes({valueOf(){ d.setTime(86400000); return 5 }}) is 300000 on both
+    sides (t is read at entry) -/
+example : getTime (setUTCS .min (newDate zero) [.mut (.fin false 5 0) (.fin false 86400000 0)]).1 = some 300000 ∧
+    (Spec.setUTCS .min (some 0) [.mut (.fin false 5 0) (.fin false 86400000 0)]).1 = some 300000 := by decide +kernel
+/-- Dev invalid_setter_not_stored: d = new Date(NaN); d.setUTCSeconds({valueOf(){ d.setTime(0); return 7 }}) returns NaN on
+    both sides, but otto leaves the 0 the valueOf stored (ES5 stores the NaN) -/
+example : (setUTCS .sec (newDate .nan) [.mut (.fin false 7 0) zero]).2.1 = .ret none ∧
+    getTime (setUTCS .sec (newDate .nan) [.mut (.fin false 7 0) zero]).1 = some 0 ∧
+    (Spec.setUTCS .sec none [.mut (.fin false 7 0) zero]).1 = none := by decide +kernel
 
 end OttoVerif.C12.Thm
